@@ -98,6 +98,10 @@ pub enum Op {
     NewChannel,
     /// a new channel through a one-shot server: new, connect, send a first message, accept
     OneShot,
+    /// a one-shot server whose client connects and leaves without sending anything, then accept:
+    /// no sender can exist any more, so accept reports that (an error) instead of a first message;
+    /// no channel comes into being
+    OneShotClientLeft,
 }
 
 #[derive(Clone, Debug, PartialEq, Eq, Serialize, Deserialize)]
@@ -237,7 +241,7 @@ impl World {
             Op::SendRegion(h) => held_main(*h) && room(*h),
             Op::SetAdd(c) => self.chans[*c].rx == RState::Held,
             Op::SetDrain => self.pending_set_events() > 0,
-            Op::NewChannel | Op::OneShot => self.chans.len() < self.max_chans,
+            Op::NewChannel | Op::OneShot | Op::OneShotClientLeft => self.chans.len() < self.max_chans,
         }
     }
 
@@ -337,6 +341,7 @@ impl World {
                 ev.retain(|_, v| !v.0.is_empty() || v.1);
                 Expect::Events(ev)
             },
+            Op::OneShotClientLeft => Expect::Disconnected,
             Op::NewChannel | Op::OneShot => {
                 let c = self.chans.len();
                 self.chans.push(Chan { queue: vec![], rx: RState::Held, oneshot: *op == Op::OneShot });
@@ -359,6 +364,7 @@ impl World {
         v.push(Op::SetDrain);
         v.push(Op::NewChannel);
         v.push(Op::OneShot);
+        v.push(Op::OneShotClientLeft);
         v.retain(|o| self.applicable(o, max_queue, max_handles));
         v
     }
@@ -641,6 +647,16 @@ impl Exec {
                 self.senders.insert(w.handles.len(), tx);
                 self.receivers.insert(c, rx);
                 Ok(Expect::Done)
+            },
+            Op::OneShotClientLeft => {
+                let (server, name) = ipc_channel::ipc::IpcOneShotServer::<Vec<W>>::new().map_err(|e| format!("one-shot new: {}", e))?;
+                let tx = IpcSender::<Vec<W>>::connect(name).map_err(|e| format!("connect: {}", e))?;
+                drop(tx);
+                // (an accept that waits for ever is reported as a deadlock by the scheduler)
+                match server.accept() {
+                    Err(_) => Ok(Expect::Disconnected),
+                    Ok(_) => Err("accept returned a first message although the client never sent one".into()),
+                }
             },
             Op::OneShot => {
                 let c = w.chans.len();
